@@ -381,6 +381,19 @@ def ptrAssignEmb (st : St) (tid d c v : Nat) : List Act :=
   | some st1 => [.incE (tmpT tid) c v] ++ relP st1 tid d relFuel ++ [.move d (tmpT tid)]
   | none => [.incE (tmpT tid) c v]
 
+/-- `d->next = src` by the thread that holds the ONLY handle of the object c (through its slot d): the
+    embedded handle is taken out, released and replaced (`takeE` / `putE`) -/
+def ptrLinkSole (st : St) (tid d c src : Nat) : List Act :=
+  let first : List Act := (match st.slots src with | .blk _ => [.inc (tmpT tid) src] | _ => []) ++ [.takeE (tmpU tid) c d]
+  match runT st tid first with
+  | some st1 => first ++ relP st1 tid (tmpU tid) relFuel ++ [.putE c (tmpT tid) d]
+  | none => first
+
+def soleBlk (st : St) (d : Nat) : Option Nat :=
+  match st.slots d with
+  | .blk b => match st.heap b with | some blk => if blk.ref = 1 then some b else none | none => none
+  | _ => none
+
 def blkOf (st : St) (d : Nat) : Option Nat := match st.slots d with | .blk b => some b | _ => none
 
 def embOf (st : St) (d : Nat) : Option Nat := match st.slots d with | .blk b => some (embSlot b) | _ => none
@@ -455,9 +468,10 @@ def pre (st : St) (tid : Nat) : ApiOp → List Act
   | .pAssign d s => ptrAssign st tid d s
   | .pClear d => relP st tid d relFuel
   | .pSwap a b => [.swap a b]
-  | .pLink d s => match embOf st d with
-    | some e => ptrAssign st tid e s
-    | none => [.move d d]            -- null pointer dereference: rejected
+  | .pLink d s => match (if st.slots s = st.slots d then none else soleBlk st d), embOf st d with
+    | some c, _ => ptrLinkSole st tid d c s
+    | none, some e => ptrAssign st tid e s       -- the object is shared: only the owner of the embedded slot (single-threaded use)
+    | none, none => [.move d d]                   -- null pointer dereference: rejected
   | .pNext d => match blkOf st d with
     | some c => ptrAssignEmb st tid d c d
     | none => [.move d d]
